@@ -50,9 +50,9 @@ theorem sortNats_of_increasing (xs : List Nat) (h : xs.Pairwise (· < ·)) : sor
 
 /-! ### `term_variables` -/
 
-theorem termVariables_foldl (rs : Structure) (d : TDict (List Str))
+theorem insertRows_foldl {α} (g : Row → α) (rs : Structure) (d : TDict α)
     (hd : ∀ e ∈ d, ∀ r ∈ rs, sortStrs e.1 ≠ sortStrs r.term) (h : DistinctTerms rs) :
-    rs.foldl (fun d r => d.insert r.term (rowVars r)) d = d ++ rs.map (fun r => (r.term, rowVars r)) := by
+    rs.foldl (fun d r => d.insert r.term (g r)) d = d ++ rs.map (fun r => (r.term, g r)) := by
   induction rs generalizing d with
   | nil => simp
   | cons r rs ih =>
@@ -68,11 +68,17 @@ theorem termVariables_foldl (rs : Structure) (d : TDict (List Str))
         exact hp.1 s hs
     · exact hp.2
 
+theorem termVariablesFull_eq (st : Structure) (h : DistinctTerms st) :
+    termVariablesFull st = st.map (fun r => (r.term, rowVarsFull r)) := by
+  unfold termVariablesFull
+  rw [insertRows_foldl rowVarsFull st [] (by simp) h]
+  simp
+
 theorem termVariables_eq (st : Structure) (h : DistinctTerms st) :
     termVariables st = st.map (fun r => (r.term, rowVars r)) := by
   unfold termVariables
-  rw [termVariables_foldl st [] (by simp) h]
-  simp
+  rw [termVariablesFull_eq st h, List.map_map]
+  rfl
 
 /-! ### `variable_terms` -/
 
